@@ -176,7 +176,6 @@ for k, v in EXTRA7.items():
 EXTRA8 = {
  'C01': " Before any stream is bound, RTCP is written and read twice through every chain.",
  'C04': " C04R also runs UnbindLocalStream followed by Close against a NACK under way (bound 3): no retransmission is written after Close returned; writes to the sink are scheduling points.",
- 'C06': " All streams are bound from one StreamInfo object that is reused and overwritten after the last Bind.",
  'C07': " Idle scripts at 192 kHz and 1 MHz (elapsed x rate beyond 2^31 within hours or minutes).",
  'C08': " In recorder mode the previous report is marshalled again after the next BuildReport and must not have changed.",
  'C09': " The two RFC 8888 streams have SSRCs that are equal in their low 16 bits.",
